@@ -26,15 +26,18 @@ def fastaMustReject (bs : Bytes) : Option String :=
 
 /-- FASTQ: a record `@hdr / letters / +… / quality` (blank lines anywhere in between) whose
     `+` line repeats a different header, or whose quality line has another length than the
-    sequence line, must be answered by that error on the first call -/
+    sequence line, must be answered by that error on the first call.  The first three lines
+    must have been delivered as lines (`readLineInput`); the quality line may also be the
+    fragments pending at `io.EOF`. -/
 def fastqMustReject (bs : Bytes) : Option String :=
-  match nonblank bs with
+  let (lines, pend) := readLineInput (eofWithData bs) bs
+  match (lines.map trimSpace).filter (fun l => l.length > 0) with
   | hdr :: s :: p :: rest =>
     let letters := s.filter (fun b => !Biogo.Fastq.isSpace b)
     if Biogo.Fastq.maybeID1 hdr && !Biogo.Fastq.maybeID2 s && Biogo.Fastq.maybeID2 p && letters.length > 0 then
       if p.length != 1 && hdr.drop 1 != p.drop 1 then some "E:qhdr"
       else
-        let q := removeSpaces (rest.headD [])
+        let q := removeSpaces (rest.headD pend)
         if q.length != letters.length then some "E:len" else none
     else none
   | _ => none
@@ -80,7 +83,7 @@ def handle (line : String) : String :=
     | ["fq3", tmpl, hex] =>
       match bytesOfHex hex, (if tmpl == "s" then some Biogo.Fastq.Encoding.none else encOfString tmpl) with
       | some bs, some enc =>
-        verdict bs (fastqMustReject bs) (fastqCalls (Biogo.Fastq.readAll (fastqCfg tmpl enc) bs)) obs
+        verdict bs (fastqMustReject bs) (fastqCalls (Biogo.Fastq.readAll (fastqCfg tmpl enc) (eofWithData bs) bs)) obs
           ["fastq", if tmpl == "s" then "tmpl-seq" else encName enc]
       | _, _ => bad "fq3"
     | _ => bad "unknown-op"
